@@ -39,6 +39,12 @@ for seed in sorted(os.listdir(os.path.join(ROOT, "seeded"))):
         last = open(lg).read().strip().splitlines()[-1:] or [""]
         if "CONFIRMED" in last[0]:
             res.setdefault(seed, {})["confirm"] = last[0].strip()
+# the exact confirmation commands (from the batch scripts that ran them)
+for f in sorted(glob.glob(os.path.join(ROOT, "work", "seedbatch*.sh"))):
+    for line in open(f):
+        m = re.match(r"confirm (seeded/(C\d+_m\d+).*)$", line.strip())
+        if m:
+            res.setdefault(m.group(2), {})["confirm_cmd"] = "bin/seedconfirm " + m.group(1)
 for seed, r in res.items():
     if seed.startswith("_"):
         continue
